@@ -250,6 +250,7 @@ def healthOutcome (nthreads : Nat) (ops : List (Nat × String)) : Option String 
       if x.startsWith "add:" then (ofHex (x.drop 4).toString).map fun c => (Health.apply m (.add c), ans)
       else if x.startsWith "ready:" then (ofHex (x.drop 6).toString).map fun c => (Health.apply m (.ready c), ans)
       else if x == "get" then some (m, ans ++ [(o.1, Health.render (Health.respond m))])
+      else if x == "isready" then some (m, ans ++ [(o.1, s!"R:{Health.isReady m}")])
       else none) (some ([], []))
   r.map fun (_, ans) =>
     let s := String.intercalate "/" ((List.range nthreads).map fun i =>
